@@ -278,6 +278,12 @@ func (m *Machine) eval(f *Formula, s MState) bool {
 		return m.eval(f.L, s) && m.eval(f.R, s)
 	case "or":
 		return m.eval(f.L, s) || m.eval(f.R, s)
+	case "not":
+		return !m.eval(f.L, s)
+	case "true":
+		return true
+	case "false":
+		return false
 	}
 	panic("unresolved formula node " + f.Op)
 }
